@@ -618,6 +618,8 @@ def run(model: RepoModel, rep, tier: str):
         else:
             rep.holds("C04.R8", key, FILE, dcfg.stmt[lf[0]].lineno, f"nothing is added to the result after the LOOP_FALSE node; popped by {consumers[0][0].name}")
 
+    from ..generic3 import check_enum_distinct
+    check_enum_distinct(model, rep, "C04.R8", "config/constants.py", ["CONTROL_FLOW_KIND"])
     # ------------------------------------------------------------------ R9 every clause of a control statement reaches the GIR
     from .. import generic2
     CONTROL_KEYS = ("if_stmt", "while_stmt", "dowhile_stmt", "for_stmt", "forin_stmt", "for_value_stmt", "try_stmt", "catch_clause", "switch_stmt",
